@@ -139,6 +139,8 @@ func main() {
 		fails = c05()
 	case "C12":
 		fails = c12()
+	case "C19":
+		fails = c19()
 	}
 	for _, f := range fails {
 		fmt.Println("FAILING-CASE", f)
@@ -388,3 +390,142 @@ func c12() []string {
 	fmt.Printf("SEARCH prop=C12 cases=%d failures=%d\n", total, len(fails))
 	return fails
 }
+
+// ---- C19: every action writes only where it may (snapshot of a sandbox HOME before/after) ----
+
+func c19() []string {
+	type action struct {
+		name string
+		set  func(o *app.Options)
+		args []string
+	}
+	actions := []action{
+		{"no-args", func(o *app.Options) {}, nil},
+		{"task", func(o *app.Options) {}, []string{"a"}},
+		{"task-force", func(o *app.Options) { o.Force = true }, []string{"a"}},
+		{"show", func(o *app.Options) { o.Show = true }, nil},
+		{"vars", func(o *app.Options) { o.Variables = true }, nil},
+		{"fmt", func(o *app.Options) { o.Fmt = true }, nil},
+		{"init", func(o *app.Options) { o.Init = true }, nil},
+		{"quiet", func(o *app.Options) { o.Quiet = true }, []string{"a"}},
+		{"json", func(o *app.Options) { o.JSON = true }, []string{"a"}},
+	}
+	spokfiles := map[string]string{
+		"valid":       "X := \"1\"\n# doc\ntask a(\"*.txt\") {\n    true\n}\n",
+		"unformatted": "X:=\"1\"\ntask   a( ) {\n true\n}\n",
+		"noparse":     "task a( {\n",
+		"noload":      "task a() {\n true\n}\ntask a() {\n true\n}\n",
+		"absent":      "",
+	}
+	var names []string
+	for n := range spokfiles {
+		names = append(names, n)
+	}
+	sort.Strings(names)
+	var fails []string
+	total := 0
+	cwd0, _ := os.Getwd()
+	defer os.Chdir(cwd0)
+	// --json prints to the process's standard output: keep it out of the probe's own report
+	realOut := os.Stdout
+	if dn, err := os.OpenFile(os.DevNull, os.O_WRONLY, 0); err == nil {
+		os.Stdout = dn
+		defer func() { os.Stdout = realOut }()
+	}
+	for _, sn := range names {
+		for _, act := range actions {
+			for _, nested := range []bool{false, true} {
+				for _, explicit := range []bool{false, true} {
+					if explicit && (sn == "absent" || act.name == "init") {
+						continue
+					}
+					total++
+					base, _ := os.MkdirTemp("", "fsprobe-")
+					base, _ = filepath.EvalSymlinks(base)
+					proj := filepath.Join(base, "home", "proj")
+					os.MkdirAll(filepath.Join(proj, "sub", "deep"), 0o755)
+					for _, f := range []string{"keep.txt", "sub/keep.c", "sub/deep/x.txt", ".gitignore", ".env"} {
+						os.WriteFile(filepath.Join(proj, f), []byte("data:"+f+"\n"), 0o644)
+					}
+					os.WriteFile(filepath.Join(base, "home", "outside.txt"), []byte("outside"), 0o644)
+					text := spokfiles[sn]
+					if sn != "absent" {
+						os.WriteFile(filepath.Join(proj, "spokfile"), []byte(text), 0o644)
+					}
+					os.Setenv("HOME", filepath.Join(base, "home"))
+					cwd := proj
+					if nested {
+						cwd = filepath.Join(proj, "sub", "deep")
+					}
+					os.Chdir(cwd)
+					before := snapshotTree(base)
+					a := app.New(iostream.Null())
+					act.set(a.Options)
+					if explicit {
+						a.Options.Spokfile = filepath.Join(proj, "spokfile")
+					}
+					err := a.Run(act.args)
+					after := snapshotTree(base)
+					os.Chdir(cwd0)
+					relCwd, _ := filepath.Rel(base, cwd)
+					spokRel := filepath.Join("home", "proj", "spokfile")
+					cacheRel := filepath.Join("home", "proj", ".spok")
+					desc := fmt.Sprintf("spokfile=%s action=%s cwd=%s explicit=%v", sn, act.name, relCwd, explicit)
+					allowed := func(p string) bool {
+						if p == cacheRel || strings.HasPrefix(p, cacheRel+"/") {
+							return act.name != "init"
+						}
+						switch act.name {
+						case "fmt":
+							return p == spokRel && (sn == "valid" || sn == "unformatted")
+						case "init":
+							return (p == filepath.Join(relCwd, "spokfile") && before[p] == "" && !hasKey(before, p)) || p == filepath.Join(relCwd, ".gitignore")
+						}
+						return false
+					}
+					var changed []string
+					for p, v := range before {
+						nv, still := after[p]
+						if !still || nv != v {
+							changed = append(changed, p)
+						}
+					}
+					for p := range after {
+						if !hasKey(before, p) {
+							changed = append(changed, p)
+						}
+					}
+					sort.Strings(changed)
+					for _, p := range changed {
+						if !allowed(p) {
+							fails = append(fails, fmt.Sprintf("%s: %s was created, changed or deleted (err=%v)", desc, p, err))
+							break
+						}
+					}
+					if act.name == "init" {
+						gi := filepath.Join(relCwd, ".gitignore")
+						if hasKey(before, gi) && err == nil && !strings.HasPrefix(after[gi], before[gi]) {
+							fails = append(fails, desc+": .gitignore was not appended to")
+						}
+						sp := filepath.Join(relCwd, "spokfile")
+						if hasKey(before, sp) && (err == nil || after[sp] != before[sp]) {
+							fails = append(fails, desc+": --init with an existing spokfile did not fail or overwrote it")
+						}
+					}
+					if act.name == "fmt" && (sn == "noparse" || sn == "noload") && (err == nil || after[spokRel] != before[spokRel]) {
+						fails = append(fails, desc+": --fmt on a spokfile that does not parse/load did not fail or rewrote it")
+					}
+					os.RemoveAll(base)
+					if len(fails) >= 3 {
+						fmt.Fprintf(realOut, "SEARCH prop=C19 cases=%d failures=%d (stopped early)\n", total, len(fails))
+						return fails
+					}
+				}
+			}
+		}
+	}
+	fmt.Fprintf(realOut, "SEARCH prop=C19 cases=%d failures=%d\n", total, len(fails))
+	return fails
+}
+
+func hasKey(m map[string]string, k string) bool { _, ok := m[k]; return ok }
